@@ -114,58 +114,87 @@ RULE = ("(a) direct calls of kvarn_utils::parse::sanitize_request (on an http::R
         "kvarn_utils::make_path and the path construction of get_response against the Coq model (correspondence) and against the "
         "executable specification 'percent-decoded bytes contain ./, do not start with /, or start with //' (oracle); targets are "
         "bounded-exhaustive over the token alphabet {/ . %2e %2E %2f %2F %5c %00 %25 %c0%af %ff a e-acute ..} (quick: all of length <= 4 "
-        "after the leading '/', thorough: <= 6, evaluated in batches of 14^3), all token strings of length <= 3 without the leading '/' "
-        "(other request-target forms), a hand-written list of traversal spellings, a full-detail sample, random longer targets, random "
-        "mutations, arbitrary bytes (mostly refused by http::Uri: out_of_domain); plus make_path, percent_decode on arbitrary text and "
-        "from_utf8 / from_utf8_lossy on byte strings around every UTF-8 boundary. (b) the real request pipeline, in process: a kvarn Host "
-        "over a fixture tree written to disk (files inside the public directory incl. sub-directories, index.html, *.html, names like "
-        "'%2e%2e' and '..\\secret.txt'; SENTINEL files named index.html / *.html / secret.txt / ... in every directory from the run "
-        "directory down to the parent of the public directory and in a sibling of it), with Extensions::new() (uri_redirect and CORS Prime "
-        "extensions) or Extensions::empty(), public_data_dir in {default, pub, www/pub}, response cache on/off, file cache on/off, four "
-        "path-bound Prepare handlers and a predicate-bound Prepare whose predicate logs that it was consulted; histories of 10-30 requests "
-        "(GET/HEAD/POST/OPTIONS, no / same-site / foreign Origin header, with or without access-control-request-method) and of steps that "
-        "copy a response-cache entry to an arbitrary key go through the public kvarn::handle_cache; per request status, content-decoded "
-        "body and the Prepare log are compared with PathSan.serve run over the same tree with the cache threaded through "
-        "(Model/PathSanPipe.v run_history, correspondence) and checked by three oracles that do not use the model: no body contains a "
-        "sentinel; status is 400 exactly when the Coq specification unsafe_b(percent_decode path) holds and then the body is the error "
-        "page and no Prepare was consulted; 403/204/'CORS request denied' never answer a request for which no CORS Prime applies. "
-        "Pipeline targets: the hand-written list under every (extensions x cache) combination and with random methods/Origin kinds, all "
-        "token strings of length <= 3 (quick) / <= 4 (thorough) with and without default extensions and of length 5 with them (thorough), traversal spellings (single, double "
-        "and triple encodings, backslashes, overlong forms) x prefixes x leaves that the default folder/extension expansion turns into "
-        "sentinel names, token strings ending in '/', '.', their single and double encodings, mixed histories with repeated targets, "
-        "poisoned-cache histories. (c) a part of the same scenarios (the hand-written list under the four extensions x cache combinations, "
-        "mixed / traversal / poisoned-cache histories) through the front door: the requests are written as HTTP/1.1 text over a loopback "
-        "TCP connection to a real kvarn server started with RunConfig::execute on the fixture host (request parsing, host selection, "
-        "handle_cache, SendKind::send), compared with the same model (a HEAD answer has no body; a request the server answers by closing "
-        "the connection counts as refused) and checked by the same oracles. distinct_nontrivial counts distinct (component, input, model outcome class) triples; batch cases count "
-        "once each, their targets are reported as targets_in_batches, pipeline requests as pipeline_requests")
+        "after the leading '/', thorough: <= 6, evaluated in batches of 14^3), all token strings of length <= 3 without the leading '/', "
+        "all strings of length <= 2 and random longer ones over a second alphabet of scheme / authority / separator tokens "
+        "{/ . .. %2e %2f : @ [ ] * ? # a % http:// // localhost secret.txt \\ %41} and a hand-written list of absolute-form, authority-form, "
+        "'*' and slash-less targets (http::Uri is modelled for every form: scheme, authority incl. userinfo / port / IPv6 brackets / percent rules, "
+        "path, query, fragment), a hand-written list of traversal spellings, a full-detail sample, random longer targets, random mutations, "
+        "arbitrary bytes; plus make_path, percent_decode on arbitrary text and from_utf8 / from_utf8_lossy on byte strings around every "
+        "UTF-8 boundary. (b) the real request pipeline, in process: a kvarn Host over a fixture tree written to disk (files inside the public "
+        "directory incl. sub-directories, index.html, *.html, names like '%2e%2e' and '..\\secret.txt', and 404.html / 400.html; SENTINEL "
+        "files with the same base names in every directory from the run directory down to the parent of the public directory, in a "
+        "sibling of it and in the errors directory; the operator's error pages <errors_dir>/400.html and 404.html in a part of the "
+        "scenarios), with Extensions::new() (uri_redirect and CORS Prime extensions) or Extensions::empty(), public_data_dir in "
+        "{default, pub, www/pub}, errors_dir in {default, err, err/pages}, extension_default / folder_default in {default, txt, a, a.html, "
+        "sub/index.html, secret.txt, 'index.', percent-encoded and doubly percent-encoded spellings, empty, with a trailing '/'}, "
+        "disable_fs, response cache on/off, file cache on/off, six path-bound Prepare handlers (server cache preference None / "
+        "QueryMatters / Full) and a predicate-bound Prepare whose predicate logs that it was consulted; histories of 10-30 requests "
+        "(GET/HEAD/POST/OPTIONS, no / same-site / foreign Origin header, with or without access-control-request-method, targets in every "
+        "form, with and without query) and of steps that copy a response-cache entry to an arbitrary key go through the public "
+        "kvarn::handle_cache; per request the status, the content-decoded body (kvarn's generated error page canonicalised by class: it IS "
+        "what kvarn_utils::hardcoded_error_body generates for the status), the Prepare log AND the list of files and directories the "
+        "server process opened below the run directory (inotify IN_OPEN on every directory of the fixture) are compared with "
+        "PathSanServe.serve_st run over the same tree with the response cache and the file cache threaded through (Model/PathSanPipe.v "
+        "run_history, correspondence) and checked by oracles that do not use the model: no body contains a sentinel; status is 400 "
+        "exactly when the Coq specification unsafe_b(percent_decode path) holds and then the body is the generated or the operator's 400 "
+        "page, no Prepare was consulted and nothing but the operator's 400 page was opened; 403/204/'CORS request denied' never answer a "
+        "request for which no CORS Prime applies; a 200 body is a public file's or a handler's; an error body is generated or the "
+        "operator's page for that status; every opened object lies below the public directory or is the operator's error page for the "
+        "status of the answer (or, for a path ending in '..', the directory containing the public directory). A few scenarios use a host "
+        "whose OWN options lead outside (folder_default '../secret.txt', '%2e%2e/secret.txt', ...): the Coq specification component "
+        "reports the hypothesis benign_host as violated, the model must still predict the answers, the confinement oracles are not "
+        "applied. (c) the same scenarios through the front door: HTTP/1.1 text (every target form) over a loopback connection whose "
+        "server end is handed to the public kvarn::handle_connection (request parsing, host selection, handle_cache, SendKind::send), and "
+        "over TLS + HTTP/2 (ALPN h2, the h2 crate's client, origin-form ':path' incl. double encodings and queries); compared with the "
+        "same model (a HEAD answer has no body; a request answered by closing the connection / resetting the stream counts as refused) "
+        "and checked by the same oracles. (d) the in-process history once more in a child harness process under 'strace -f -e "
+        "trace=%file': per request the distinct path strings below the run directory handed to ANY file-related system call (open, "
+        "stat, access, ..., successful or not) are compared with the model's list of paths handed to the operating system and checked: "
+        "an unsafe request touches nothing but the operator's 400 page; with benign options every path string starts with the public "
+        "directory or is the operator's error page. distinct_nontrivial counts distinct (component, input, model outcome class) triples; "
+        "batch cases count once each, their targets are reported as targets_in_batches, pipeline requests as pipeline_requests")
 ASSUMPTIONS = [
-    "no symbolic links below or at the public directory and a case-sensitive POSIX file system (the tree model of theorems 1b/1c/6)",
+    "no symbolic links below or at the public directory and a case-sensitive POSIX file system (the tree model of theorems 1b/1c/2f/6)",
     "Unix: Path::is_relative() is 'does not start with /' (the model and the harness run on Linux)",
     "the operator's options extension_default / folder_default are benign (their percent-decoding contains no './' and does not start "
-    "with '/'; true for the defaults 'html' and 'index.html', proved as benign_defaults) — hypothesis of theorems 1c, 3b, 6 and 8",
+    "with '/'; true for the defaults 'html' and 'index.html', proved as benign_defaults) — hypothesis of theorems 1c, 2f, 3b, 6 and 8; "
+    "that it is needed is proved (confinement_without_benign_host_refuted) and exercised (non-benign scenarios)",
+    "the operator's error pages <host.path>/<errors_dir>/<status>.html lie outside the public directory by design and are sent as "
+    "bodies of error answers: theorems 2e / 6 show that their path is a function of the host and of the status code only",
+    "the files do not change while the server runs (fc_coherent: what the file cache holds is what the file system holds; established "
+    "for the empty cache and preserved by every step)",
     "theorems 1c/3b/6/8 speak about the built-in Prime extensions ('Expand . and /', the two CORS reroutes of Extensions::new) and about "
     "Prime extensions returning a /./ override; other operator-written Prime/Prepare/Present extensions that build their own paths "
     "are outside the property (the fixture's Prepare handlers return fixed bodies)",
-    "http::Uri acceptance is modelled for origin-form targets, '*' and bare reg-names; other forms are out of domain of the correspondence; "
-    "the pipeline component takes origin-form targets only and builds the request as c00pipe does (absolute URI http://localhost<target>)",
-    "the response cache is a finite map with read-your-writes (moka; 1024 entries are never reached in a history); its key/fill rules are "
-    "modelled as far as C01 needs them (path only: the fixture never uses ServerCachePreference::QueryMatters; no If-Modified-Since, no "
-    "Vary rules — C03/C04's subject); theorems 2b/7 show it is bypassed for unsafe paths whatever it contains",
-    "error::default reads <host.path>/errors/<status>.html by design; the fixture has no such files",
-    "sequential histories (one request at a time); HTTP/1.1 without TLS on the loopback variant (HTTP/2, HTTP/3 and TLS front ends build the "
-    "same http::Request and call the same handle_cache, but are not driven here)",
+    "the URI of a request is what kvarn's HTTP/1 readers (kvarn_async::read::request, application::parse_http_1) and the in-process "
+    "harness build: scheme '://' Host-header target, parsed by http::Uri (modelled in full: Model/PathSan.v uri_parse); over HTTP/2 the "
+    "h2 crate builds it from ':scheme', ':authority' and ':path' (http::uri::PathAndQuery: must be '*' or start with '/', '?' or '#')",
+    "the response cache and the file cache are finite maps with read-your-writes (moka; their capacities are never reached in a "
+    "history); response-cache keys are UriKey::PathQuery / UriKey::Path with the QueryMatters rule; no If-Modified-Since, no Vary "
+    "rules (C03/C04's subject); theorems 2b/2c/7 show both caches are bypassed for unsafe paths whatever they contain",
+    "sequential histories (one request at a time); HTTP/1.1 without TLS and HTTP/2 over TLS through kvarn::handle_connection on a "
+    "loopback connection (HTTP/3 builds the same http::Request and calls the same handle_cache, but is not driven here; the accept "
+    "loop of RunConfig::execute is C10/C11/C12's subject)",
+    "the file-system access probes see what the kernel reports: inotify IN_OPEN (every scenario) = successful open(2) of an object "
+    "below the run directory; strace %file (a part of the in-process scenarios) = every path string passed to a file-related system "
+    "call by the harness process; memory-mapped or io_uring access is not used by this build (feature uring off)",
 ]
 TRUSTED = ["modelled: utils/src/parse.rs sanitize_request (path part), parse::uri; utils/src/lib.rs percent_decode, make_path; src/lib.rs "
-           "handle_cache / get_response / handle_request / maybe_cache as far as sanitize result, cache key and filling, path "
-           "construction, Prepare lookup and read_file are concerned; src/extensions.rs resolve_prime (uri_redirect), resolve_prepare; "
-           "src/cors.rs with_disallow_cors (when the two Prime extensions reroute, what the two internal handlers answer); "
-           "src/host.rs default_status_code_cache_filter; percent_encoding::percent_decode, core::str::from_utf8 and "
-           "String::from_utf8_lossy are transcribed and compared with the real functions on every run",
-           "the pipeline harness harness/src/c01pipe.rs + c00pipe.rs (fixture on disk under .run/<pid>-<n>/, request construction, "
-           "canonicalisation of kvarn's HTML error pages to 'ERRPAGE', content-decoding of bodies; for the loopback variant a minimal HTTP/1.1 "
-           "client: one request at a time, responses framed by content-length, 8 s read timeouts, port chosen by the kernel) and the Python oracles in "
-           "driver/props/c01.py (sentinel search, status-400 rule against the Coq spec component pathsanpipe.spec, CORS rule)"]
+           "handle_cache / get_response / handle_request / maybe_cache as far as sanitize result, cache keys (UriKey, query_matters) and "
+           "filling, path construction, Prepare lookup and read_file are concerned; src/error.rs default (error-page path and read); "
+           "src/read.rs file / file_cached (file-cache lookup, filling, negative entries); src/host.rs Options::get_errors_dir / "
+           "get_public_data_dir, disable_fs, default_status_code_cache_filter; src/extensions.rs resolve_prime (uri_redirect), "
+           "resolve_prepare; src/cors.rs with_disallow_cors and Cors::is_part_of_origin (when the two Prime extensions reroute, what the "
+           "two internal handlers answer); http::Uri::from_shared (1.5.0: scheme, authority, path-and-query parsers); "
+           "percent_encoding::percent_decode, core::str::from_utf8 and String::from_utf8_lossy are transcribed and compared with the "
+           "real functions on every run",
+           "the pipeline harness harness/src/c01pipe.rs (+ c00pipe.rs build_host / make_request / decode_body): fixture on disk under "
+           ".run/<pid>-<n>/, request construction, canonicalisation of kvarn's generated error page (by comparison with "
+           "kvarn_utils::hardcoded_error_body), content-decoding of bodies; the inotify reader (libc); for the loopback variants a listener "
+           "owned by the harness for the whole scenario (the port is never released), a minimal HTTP/1.1 client (one request at a time, "
+           "responses framed by content-length, 8 s timeouts) and the h2 + tokio-rustls client; for the system-call trace /usr/bin/strace "
+           "and the parser of its -xx output; and the Python oracles in driver/props/c01.py (sentinel search, status-400 rule against the "
+           "Coq spec component pathsanpipe.spec, CORS rule, opened-objects rule, system-call rule)"]
 EXHAUSTIVE = False
 KERNEL_SAMPLE = 40
 
@@ -877,24 +906,38 @@ def signature(c, m):
 
 
 LEVEL_TEXT = ("Machine-checked Coq theorems, for ALL byte strings, over a byte-level model of percent_decode / sanitize_request / make_path / "
-              "the pipeline from handle_cache to read_file: an accepted path walks only downwards from the public directory until its last "
-              "segment and a returned file content always comes from inside the public directory of an arbitrary file tree (POSIX resolution "
-              "without symlinks); exactly the paths whose percent-decoded bytes contain './', are not rooted or start with '//' are rejected, "
-              "answered 400 without cache, Prepare or file read; no accepted path (raw or decoded) contains './', so the internal /./ routes "
-              "are reachable only through a Prime result; check and use decode once and identically. Lifted to ALL histories of requests "
-              "with the response cache threaded through (induction with a cache invariant): every body ever answered, computed or cached, "
-              "is generated, a handler's, or a public file's content; an unsafe request is answered 400 in every cache state and leaves the "
-              "cache alone; without a CORS override a request is answered as if the internal routes did not exist. The model is tied to "
-              "/repo on every run by a differential run of the real functions AND of the real kvarn::handle_cache (default and empty "
-              "extensions, cache on/off, fixture tree with sentinel files on disk) against the extracted model, plus three oracles on the "
-              "real answers that do not go through the model.")
+              "http::Uri / the pipeline from handle_cache to read_file and error::default with the file cache: an accepted path walks only "
+              "downwards from the public directory until its last segment and a returned file content always comes from inside the public "
+              "directory of an arbitrary file tree (POSIX resolution without symlinks); exactly the paths whose percent-decoded bytes contain "
+              "'./', are not rooted or start with '//' are rejected, answered 400 without response cache, Prepare or read of the requested path "
+              "— in every file-cache state the only path that can reach the operating system is the operator's 400 page, and the file "
+              "cache is untouched elsewhere; the file cache is transparent (answers equal those without it, coherence is an invariant); every "
+              "error-page read goes to <host.path>/<errors_dir>/<status>.html, a function of host and status only; every object the "
+              "operating system is asked to open is that page, a directory, or strictly below the public directory; no accepted path (raw "
+              "or decoded) contains './', so the internal /./ routes are reachable only through a Prime result; check and use decode once and "
+              "identically. Lifted to ALL histories of requests (any target form) with the response cache and the file cache threaded "
+              "through (induction with a state invariant): every body ever answered — computed, from the response cache, from disk or from "
+              "the file cache — is generated, a handler's, a public file's content or an operator's error page; an unsafe request is "
+              "answered 400 in every state and leaves the response cache alone; without a CORS override a request is answered as if the "
+              "internal routes did not exist. The predicates used by the statements are pinned with their bodies. The model is tied to "
+              "/repo on every run by a differential run of the real functions AND of the real kvarn::handle_cache / "
+              "kvarn::handle_connection (in process, HTTP/1.1 over loopback, HTTP/2 over TLS; default and empty extensions, caches on/off, "
+              "operator options varied, fixture tree with sentinel files on disk) against the extracted model — including the list of "
+              "objects the server opens (inotify) and of path strings it passes to file system calls (strace) — plus oracles on the real "
+              "answers and on the observed file-system accesses that do not go through the model.")
 LEVEL_NOTE = ("Trusted: Coq kernel, extraction (ExtrOcamlBasic) reduced by an in-kernel recheck sample, the hand transcription of the Rust "
-              "code into Model/PathSan.v + Model/PathSanPipe.v as validated by the differential runs, the POSIX path-resolution model (no "
-              "symlinks), the pipeline harness. No axioms. One defect repaired on the way (sanitize tested the undecoded text when the "
-              "decoding was not UTF-8).")
+              "code into Model/PathSan.v + Model/PathSanServe.v + Model/PathSanPipe.v as validated by the differential runs, the POSIX "
+              "path-resolution model (no symlinks), the pipeline harness incl. its inotify / strace probes. No axioms. Two defects repaired on "
+              "the way: sanitize tested the undecoded text when the decoding was not UTF-8 (3565dd3); Options::get_errors_dir returned "
+              "public_data_dir, so a custom public directory moved the error pages into it and errors_dir was ignored (741adef). Observed, "
+              "not a violation of this property: a request target that is not in origin form is glued to the Host header ('GET "
+              "http://localhost/x' has the path '//localhost/x' and is refused with 400, 'GET *' and 'OPTIONS *' are answered as '/', "
+              "'GET ../secret.txt' as '/secret.txt' of the host 'localhost..'): the path always starts at the target's first '/' and is "
+              "sanitised as sent.")
 TECHNIQUE = ("Coq proof (model satisfies spec for all inputs and all histories) + differential correspondence model vs. implementation "
-             "(direct calls, the in-process pipeline kvarn::handle_cache on a fixture tree, and a real server over loopback HTTP/1.1) + "
-             "model-independent oracles on the pipeline answers")
+             "(direct calls, the in-process pipeline kvarn::handle_cache on a fixture tree, kvarn::handle_connection over loopback HTTP/1.1 "
+             "and TLS+HTTP/2, file-system access observed with inotify and strace) + model-independent oracles on the pipeline answers and "
+             "on the observed accesses")
 
 
 def extra_coverage(cases, impl, model, spec):
